@@ -136,20 +136,32 @@ def _ite_chain(t: T) -> List[Tuple[T, T]]:
 
 
 def _motion(ctx, prog):
+    """accept-any-of-two-tests, whichever way the branches are written:
+    elif chain with continue, two ifs, or one `if a or b`; the last kept pose
+    may be remembered as an index, as a distance, or read from the list"""
     f = prog.func("evo.core.filters.filter_by_motion")
     ctx.analysed_fn(f.qualname)
     ctx.require(f.params[:4] == ["poses", "distance_threshold",
                                  "angle_threshold", "degrees"],
                 "filter_by_motion signature changed")
     poses = tm.param("poses")
+    thr_d = tm.param("distance_threshold")
+    thr_a_raw = tm.param("angle_threshold")
+    ACCF = "evo.core.geometry.accumulated_distances"
+    blk = T("tuple", T("slice", tm.NONE, const(3), tm.NONE),
+            T("slice", tm.NONE, const(3), tm.NONE))
     for deg in (False, True):
         r = Interp(prog).run(f, {"degrees": const(deg)})
         ctx.analysed["configs"] += 1
         ret = r.ret
-        ctx.require(ret.op == "loopout", f"filter_by_motion: kept-id list is "
-                    f"not built in a loop (unknown idiom): {fmt(ret)}")
+        if ret.op != "loopout":
+            ctx.undecidable("C11.2", f, f"kept-id list is not built in a "
+                            f"loop: {fmt(ret)}")
+            continue
         name, lid, init, upd = ret.args
-        ok = init is T("list", const(0))
+        initu = init
+        ok = init.op == "list" and len(init.args) == 1 and (
+            tm.is_const(init.args[0], 0))
         ctx.ob("C11.2", f, ok,
                "motion filter: the kept list starts as [0] (first pose "
                "always kept)" if ok else
@@ -161,164 +173,162 @@ def _motion(ctx, prog):
             len(it.args[1]) == 2 and tm.is_const(it.args[1][0], 1) and \
             is_call_to(it.args[1][1], "builtins.len") and \
             it.args[1][1].args[1][0] is poses
-        ctx.ob("C11.2", f, ok,
-               "motion filter: candidates are indices 1 .. len-1 in order"
-               if ok else f"motion filter iterates {fmt(it)}",
+        if not ok:
+            ctx.undecidable("C11.2", f, f"candidate loop is {fmt(it)}, not "
+                            f"range(1, len(poses))")
+            continue
+        ctx.ob("C11.2", f, True,
+               "motion filter: candidates are indices 1 .. len-1 in order",
                key="C11.2:loop-range")
-        i = T("elem", it, lid) if it is not None else None
+        i = T("elem", it, lid)
         chain = _ite_chain(upd)
         accepts = [(c, v) for c, v in chain if c is not None]
         keep = chain[-1][1]
-        ok = len(accepts) == 2 and all(
+        shape = bool(accepts) and all(
             v.op == "mut" and v.args[1] == "append" and v.args[2] == (i,)
             and v.args[0].op == "loopvar" for _, v in accepts) and \
             keep.op == "loopvar"
-        ctx.ob("C11.2", f, ok,
-               "motion filter: two accept branches, each appends the "
-               "current index; otherwise the list is unchanged" if ok else
-               f"motion filter: kept-list update is {fmt(upd)}",
-               key="C11.2:accept-branches")
-        if not ok:
+        if not shape:
+            ctx.undecidable("C11.2", f, f"kept-list update not recognised: "
+                            f"{fmt(upd)}")
             continue
-        prefix = set(tm.atoms(loop_ev[0].live)) | {T("iter", lid)}
         pl = set(_conj(loop_ev[0].live)) | {T("iter", lid)}
         conds = [tm.mk_and(*[x for x in _conj(c) if x not in pl])
                  for c, _ in accepts]
-        # the accept test of a branch = its literals that are not merely the
-        # negation of an earlier branch's test
-        tests, earlier = [], []
-        for c in conds:
-            lits = comparisons(c)
-            new = [l for l in lits if (l[2], "Lt" if l[1] == "LtE" else
-                                       "LtE", l[0]) not in earlier]
-            tests.append(new)
-            earlier.extend(new)
-        # the loop-carried reference states
+        D = tm.mk_or(*conds)
+        disj = list(D.args) if D.op == "or" else [D]
+        tests = [norm_cmp(d) for d in disj]
+        if len(disj) != 2 or not all(tests):
+            ctx.undecidable("C11.2", f, f"accept condition is not a "
+                            f"disjunction of two comparisons: {fmt(D)}")
+            continue
+        ctx.ob("C11.2", f, True,
+               f"[degrees={deg}] a pose is kept iff (distance test) or "
+               f"(angle test); it is then appended",
+               key="C11.2:accept-branches")
+        mention = lambda t_, p_: any(x is p_ for y in (t_[0], t_[2])
+                                     for x in y.walk())
+        dist_t = [t_ for t_ in tests if mention(t_, thr_d)]
+        ang_t = [t_ for t_ in tests if mention(t_, thr_a_raw)]
         states = {}
         for nm, val in r.env.items():
             if val.op == "loopout" and val.args[1] == lid and nm != name:
                 states[nm] = val
-        # accept tests
-        thr_d = tm.param("distance_threshold")
-        thr_a_raw = tm.param("angle_threshold")
-        dist_c = [c for c, t_ in zip(conds, tests) if any(
-            any(x is thr_d for x in y.walk()) for l in t_ for y in
-            (l[0], l[2]))]
-        ang_c = [c for c, t_ in zip(conds, tests) if any(
-            any(x is thr_a_raw for x in y.walk()) for l in t_ for y in
-            (l[0], l[2]))]
-        dist_t = [t_ for t_ in tests if any(
-            any(x is thr_d for x in y.walk()) for l in t_ for y in
-            (l[0], l[2]))]
-        ang_t = [t_ for t_ in tests if any(
-            any(x is thr_a_raw for x in y.walk()) for l in t_ for y in
-            (l[0], l[2]))]
-        okd = oka = False
-        dist_state = ang_state = None
+
+        def last_kept_ref(t_: T):
+            """state name / marker if t_ denotes the last kept index"""
+            if t_.op == "loopvar" and t_.args[1] == lid:
+                return t_.args[0]
+            if t_.op == "sub" and tm.is_const(t_.args[1], -1) and \
+                    t_.args[0].op == "loopvar" and t_.args[0].args[0] == name:
+                return "<last kept id>"
+            return None
+        used_states = []
+        # ---- distance test
+        okd, whyd = False, fmt(D)
         if len(dist_t) == 1:
-            lits = dist_t[0]
-            if len(lits) == 1:
-                a, rel, b = lits[0]
-                # thr <= d   (i.e. d >= thr)
-                d = b if a is thr_d else None
-                okd = rel == "LtE" and a is thr_d and d.op == "binop" and \
-                    d.args[0] == "Sub"
-                if okd:
-                    cur, prev = d.args[1], d.args[2]
-                    acc = cur.args[0] if cur.op == "sub" else None
-                    okd = cur.op == "sub" and cur.args[1] is i and \
-                        is_call_to(acc, "evo.core.geometry."
-                                        "accumulated_distances") and \
-                        prev.op == "loopvar" and prev.args[1] == lid
-                    dist_state = prev.args[0] if okd else None
-                    if okd:
-                        pos = acc.args[1][0]
-                        pe = per_element(pos)
-                        okd = pe is not None and pe[2] is poses and \
-                            not pe[3]
+            a_, rel, b_ = dist_t[0]
+            if a_ is thr_d and rel in ("LtE", "Lt") and b_.op == "binop" \
+                    and b_.args[0] == "Sub":
+                cur, prev = b_.args[1], b_.args[2]
+                acc = cur.args[0] if cur.op == "sub" else None
+                acc_ok = acc is not None and is_call_to(acc, ACCF) and \
+                    cur.args[1] is i
+                if acc_ok:
+                    pe = per_element(acc.args[1][0])
+                    acc_ok = pe is not None and pe[2] is poses and \
+                        not pe[3]
+                prev_ok = False
+                if prev.op == "loopvar" and prev.args[1] == lid:
+                    prev_ok = True
+                    used_states.append((prev.args[0], "distance"))
+                elif prev.op == "sub" and prev.args[0] is acc:
+                    ref = last_kept_ref(prev.args[1])
+                    prev_ok = ref is not None
+                    if ref and ref != "<last kept id>":
+                        used_states.append((ref, "index"))
+                okd = acc_ok and prev_ok and rel == "LtE"
+                if acc_ok and prev_ok and rel == "Lt":
+                    whyd = "the distance test is strict (>): a pose at " \
+                           "exactly the threshold is dropped"
         ctx.ob("C11.2", f, okd,
                f"[degrees={deg}] distance test: accumulated path since the "
                f"last kept pose >= distance_threshold (inclusive)" if okd
-               else f"[degrees={deg}] distance accept test is not "
-                    f"`distances[i] - <last kept distance> >= threshold`: "
-                    f"{fmt(dist_c[0]) if dist_c else conds}",
+               else f"[degrees={deg}] distance accept test deviates: {whyd}",
                key="C11.2:distance-test")
+        # ---- angle test
+        oka, whya = False, fmt(D)
         if len(ang_t) == 1:
-            lits = ang_t[0]
-            if len(lits) == 1:
-                a, rel, b = lits[0]
-                want_thr = tm.call(tm.glob("numpy.deg2rad"), (thr_a_raw,)) \
-                    if deg else thr_a_raw
-                oka = rel == "LtE" and a is want_thr and \
-                    is_call_to(b, "evo.core.lie_algebra.so3_log_angle") and \
-                    b.args[1] and is_call_to(
-                        b.args[1][0], "evo.core.lie_algebra.relative_so3")
-                if oka:
-                    r1, r2 = b.args[1][0].args[1]
-                    blk = T("tuple", T("slice", tm.NONE, const(3), tm.NONE),
-                            T("slice", tm.NONE, const(3), tm.NONE))
-                    oka = r2 is tm.sub(tm.sub(poses, i), blk) and \
-                        r1.op == "sub" and r1.args[1] is blk and \
-                        r1.args[0].op == "sub" and r1.args[0].args[0] is poses
-                    if oka:
-                        ref_idx = r1.args[0].args[1]
-                        if ref_idx.op == "loopvar" and ref_idx.args[1] == lid:
-                            ang_state = ref_idx.args[0]
-                        elif ref_idx.op == "sub" and \
-                                tm.is_const(ref_idx.args[1], -1) and \
-                                ref_idx.args[0].op == "loopvar" and \
-                                ref_idx.args[0].args[0] == name:
-                            ang_state = "<last kept id>"
-                        else:
-                            oka = False
+            a_, rel, b_ = ang_t[0]
+            want_thr = tm.call(tm.glob("numpy.deg2rad"), (thr_a_raw,)) \
+                if deg else thr_a_raw
+            if rel in ("LtE", "Lt") and \
+                    is_call_to(b_, "evo.core.lie_algebra.so3_log_angle") \
+                    and b_.args[1] and is_call_to(
+                        b_.args[1][0], "evo.core.lie_algebra.relative_so3"):
+                r1, r2 = b_.args[1][0].args[1]
+                roles = r2 is tm.sub(tm.sub(poses, i), blk) and \
+                    r1.op == "sub" and r1.args[1] is blk and \
+                    r1.args[0].op == "sub" and r1.args[0].args[0] is poses
+                ref = last_kept_ref(r1.args[0].args[1]) if roles else None
+                if ref and ref != "<last kept id>":
+                    used_states.append((ref, "index"))
+                oka = roles and ref is not None and a_ is want_thr and \
+                    rel == "LtE"
+                if roles and ref is not None and a_ is not want_thr:
+                    whya = (f"threshold is {fmt(a_)}, expected "
+                            f"{fmt(want_thr)}")
+                elif roles and ref is not None and rel == "Lt":
+                    whya = "the angle test is strict (>): a pose at " \
+                           "exactly the threshold is dropped"
         ctx.ob("C11.2", f, oka,
                f"[degrees={deg}] angle test: rotation angle relative to the "
                f"last kept pose >= angle threshold"
                f"{' (converted once with deg2rad)' if deg else ''} "
                f"(inclusive)" if oka else
-               f"[degrees={deg}] angle accept test deviates: "
-               f"{fmt(ang_c[0]) if ang_c else conds}",
+               f"[degrees={deg}] angle accept test deviates: {whya}",
                key="C11.2:angle-test")
-        # sibling agreement: both branches reset both reference states
-        for sname, kind in ((dist_state, "distance"), (ang_state, "angle")):
-            if sname is None or sname == "<last kept id>":
-                if sname == "<last kept id>":
-                    ctx.ob("C11.2", f, True,
-                           f"[degrees={deg}] angle reference is the last "
-                           f"kept id itself (always current)",
-                           key="C11.2:reset:angle", nontrivial=False)
+        # ---- every accept branch resets every reference state it relies on
+        full = [c for c, _ in accepts]
+        seen = set()
+        for sname, kind in used_states:
+            if sname in seen:
                 continue
+            seen.add(sname)
             st = states.get(sname)
             ok = False
-            detail = "state not updated in the loop"
+            detail = f"`{sname}` is not updated in the loop"
             if st is not None:
                 ch = _ite_chain(st.args[3])
                 resets = {c: v for c, v in ch if c is not None}
-                full = [c for c, _ in accepts]
                 missing = [c for c in full if c not in resets]
-                want_val = i if kind == "angle" else None
                 vals_ok = all(
-                    (v is i) if kind == "angle" else
+                    (v is i) if kind == "index" else
                     (v.op == "sub" and v.args[1] is i and is_call_to(
-                        v.args[0], "evo.core.geometry."
-                                   "accumulated_distances"))
-                    for v in resets.values())
+                        v.args[0], ACCF)) for v in resets.values())
                 ok = not missing and vals_ok and ch[-1][1].op == "loopvar"
                 if missing:
                     which = "distance-triggered" if any(
-                        x is thr_d for x in missing[0].walk()) else \
-                        "angle-triggered"
+                        x is thr_d for x in missing[0].walk()) and not any(
+                        x is thr_a_raw for x in _conj(missing[0])[-1].walk()
+                    ) else "angle-triggered"
                     detail = (f"the {which} accept branch does not reset "
-                              f"the {kind} reference `{sname}`")
+                              f"the reference `{sname}`")
                 elif not vals_ok:
                     detail = f"`{sname}` is reset to " \
                              f"{[fmt(v) for v in resets.values()]}"
+            label = "distance" if kind == "distance" else "angle"
             ctx.ob("C11.2", f, ok,
-                   f"[degrees={deg}] both accept branches reset the {kind} "
-                   f"reference to the current pose" if ok else
+                   f"[degrees={deg}] every accept branch resets the "
+                   f"reference `{sname}` to the current pose" if ok else
                    f"[degrees={deg}] sibling disagreement: {detail} — after "
-                   f"such an accept the {kind} is still measured from an "
-                   f"older pose", key=f"C11.2:reset:{kind}")
+                   f"such an accept the motion is still measured from an "
+                   f"older pose", key=f"C11.2:reset:{label}")
+        if not used_states:
+            ctx.ob("C11.2", f, True,
+                   f"[degrees={deg}] the reference is the last kept id "
+                   f"itself (always current)", key="C11.2:reset:angle",
+                   nontrivial=False)
     # guards
     r = Interp(prog).run(f)
     neg = [e for e in r.of_kind("raise")
@@ -398,7 +408,8 @@ def _crop(ctx, prog):
 
 
 # ---------------------------------------------------------------- C11.4
-def _step_def(kind: str) -> T:
+def _step_defs(kind: str):
+    """accepted spellings of the step sequence"""
     s1 = T("slice", const(1), tm.NONE, tm.NONE)
     s0 = T("slice", tm.NONE, const(-1), tm.NONE)
     if kind == "time":
@@ -406,8 +417,13 @@ def _step_def(kind: str) -> T:
     elif kind == "distance":
         a = tm.attr(SELF, "distances")
     else:
-        return tm.attr(SELF, "speeds")
-    return T("binop", "Sub", tm.sub(a, s1), tm.sub(a, s0))
+        return (tm.attr(SELF, "speeds"),)
+    return (T("binop", "Sub", tm.sub(a, s1), tm.sub(a, s0)),
+            tm.call(tm.glob("numpy.diff"), (a,), ()))
+
+
+def _step_def(kind: str) -> T:
+    return _step_defs(kind)[0]
 
 
 def _boundaries_ok(b: T, kind: str, thr: T) -> Tuple[bool, str]:
@@ -415,12 +431,12 @@ def _boundaries_ok(b: T, kind: str, thr: T) -> Tuple[bool, str]:
     alts = tm.strip_ite(b)
     main = [a for a in alts if is_call_to(a, "numpy.concatenate")]
     if not main:
-        return False, f"boundaries are {fmt(b)}"
+        return None, f"boundaries are {fmt(b)}"
     c = main[0]
     parts = c.args[1][0] if c.args[1] else None
     if parts is None or parts.op not in ("list", "tuple") or \
             len(parts.args) != 3:
-        return False, f"boundary vector is {fmt(c)}"
+        return None, f"boundary vector is {fmt(c)}"
     first, mid, last = parts.args
     cnt = tm.attr(SELF, "num_poses")
     if first is not T("list", const(0)) or last is not T("list", cnt):
@@ -432,15 +448,17 @@ def _boundaries_ok(b: T, kind: str, thr: T) -> Tuple[bool, str]:
     w = mid.args[1]
     if w.op == "sub" and tm.is_const(w.args[1], 0):
         w = w.args[0]
-    if not (is_call_to(w, "numpy.where") and len(w.args[1]) == 1):
-        return False, f"cuts are not where(step > threshold): {fmt(w)}"
+    if not (is_call_to(w, "numpy.where", "numpy.flatnonzero",
+                       "numpy.nonzero") and len(w.args[1]) == 1):
+        return None, f"cuts are not where(step > threshold): {fmt(w)}"
     n = norm_cmp(w.args[1][0])
-    step = _step_def(kind)
+    steps = _step_defs(kind)
     if n is None:
-        return False, f"cut condition {fmt(w.args[1][0])}"
+        return None, f"cut condition {fmt(w.args[1][0])}"
     a, rel, bb = n
-    if not (a is thr and rel == "Lt" and bb is step):
-        if a is thr and rel == "LtE" and bb is step:
+    step = bb if bb in steps else steps[0]
+    if not (a is thr and rel == "Lt" and bb in steps):
+        if a is thr and rel == "LtE" and bb in steps:
             return False, "cut condition is `step >= threshold`; the " \
                           "property cuts only at steps *exceeding* the " \
                           "threshold"
@@ -452,7 +470,33 @@ def _boundaries_ok(b: T, kind: str, thr: T) -> Tuple[bool, str]:
             continue
         if not (is_call_to(a_, "numpy.array") and a_.args[1] and
                 a_.args[1][0] is T("list", const(0), cnt)):
-            return False, f"alternative boundary vector {fmt(a_)}"
+            return None, f"alternative boundary vector {fmt(a_)}"
+    # the no-cut alternative may only be chosen when there is *no* cut index
+    if b.op == "ite":
+        cond = b.args[0]
+        cuts = mid.args[1]
+        empties = (T("cmp", "Eq", tm.call(tm.glob("builtins.len"), (cuts,),
+                                          ()), const(0)),
+                   T("cmp", "Eq", tm.attr(cuts, "size"), const(0)),
+                   T("not", tm.call(tm.glob("builtins.len"), (cuts,), ())))
+        w_ = cuts.args[0] if cuts.op == "sub" else cuts
+        empties += (T("cmp", "Eq", tm.call(tm.glob("builtins.len"),
+                                           (tm.sub(w_, const(0)),), ()),
+                      const(0)),)
+        lits = [x for x in (list(cond.args) if cond.op == "and" else [cond])
+                if any(y is cuts or y is w_ for y in x.walk())]
+        if lits and not all(x in empties for x in lits):
+            truthy = [x for x in lits if any(
+                is_call_to(y, ".any", ".all", "numpy.any", "numpy.all")
+                for y in x.walk()) or x is cuts or
+                (x.op == "not" and x.args[0] is cuts)]
+            if truthy:
+                return False, (f"the 'no cut' case is selected by "
+                               f"{fmt(truthy[0])}: a truth test on cut "
+                               f"*indices* is false for the index 0 as "
+                               f"well, so a gap at the very first step is "
+                               f"lost")
+            return None, f"'no cut' condition {fmt(cond)}"
     return True, "concat([0], where(step > thr)+1, [count])"
 
 
@@ -473,29 +517,42 @@ def _splits(ctx, prog):
                     f"(unknown idiom)")
         comp = parts[0]
         elt, (itr, lid) = comp.args[1], comp.args[2][0]
-        # iteration over range(len(b) - 1)
-        ok = is_call_to(itr, "builtins.range") and len(itr.args[1]) == 1 \
-            and itr.args[1][0].op == "binop" and \
-            itr.args[1][0].args[0] == "Sub" and \
-            tm.is_const(itr.args[1][0].args[2], 1) and \
-            is_call_to(itr.args[1][0].args[1], "builtins.len") and \
-            not comp.args[3]
-        b = itr.args[1][0].args[1].args[1][0] if ok else None
-        i = T("elem", itr, lid)
-        ctx.ob("C11.4", f, ok,
-               f"{f.name}: one part per consecutive boundary pair, none "
-               f"skipped" if ok else
-               f"{f.name}: parts iterate {fmt(itr)} with filter "
-               f"{fmt(comp.args[3])}", key=f"C11.4:{q}:pairs")
-        if not ok:
+        b = lo = hi = None
+        S1 = T("slice", const(1), tm.NONE, tm.NONE)
+        if is_call_to(itr, "builtins.range") and len(itr.args[1]) == 1 \
+                and itr.args[1][0].op == "binop" and \
+                itr.args[1][0].args[0] == "Sub" and \
+                tm.is_const(itr.args[1][0].args[2], 1) and \
+                is_call_to(itr.args[1][0].args[1], "builtins.len") and \
+                not comp.args[3]:
+            # for i in range(len(b) - 1): ... [b[i]:b[i+1]]
+            b = itr.args[1][0].args[1].args[1][0]
+            i = T("elem", itr, lid)
+            sb = Interp(prog).subscript
+            lo, hi = sb(b, i), sb(b, T("binop", "Add", i, const(1)))
+        elif is_call_to(itr, "builtins.zip") and len(itr.args[1]) == 2 \
+                and itr.args[1][1] is Interp(prog).subscript(
+                    itr.args[1][0], S1) and not comp.args[3]:
+            # for start, end in zip(b, b[1:]): ... [start:end]
+            b = itr.args[1][0]
+            lo = T("elem", b, lid)
+            hi = T("elem", itr.args[1][1], lid)
+        if b is None:
+            ctx.undecidable("C11.4", f, f"{f.name}: iteration over the "
+                            f"boundary pairs not recognised: {fmt(itr)} "
+                            f"{fmt(comp.args[3])}")
             continue
+        ctx.ob("C11.4", f, True,
+               f"{f.name}: one part per consecutive boundary pair, none "
+               f"skipped", key=f"C11.4:{q}:pairs")
         okb, why = _boundaries_ok(b, kind, thr)
+        if okb is None:
+            ctx.undecidable("C11.4", f, f"{f.name}: {why}")
+            continue
         ctx.ob("C11.4", f, okb,
                f"{f.name}: boundaries = {why}" if okb else
                f"{f.name}: {why}", key=f"C11.4:{q}:boundaries")
-        sb = Interp(prog).subscript
-        want_slice = T("slice", sb(b, i),
-                       sb(b, T("binop", "Add", i, const(1))), tm.NONE)
+        want_slice = T("slice", lo, hi, tm.NONE)
         kw = dict(elt.args[2]) if elt.op == "call" else {}
         if elt.op == "call" and elt.args[1]:
             ctx.undecidable("C11.4", f, f"{f.name}: part constructor uses "
